@@ -183,8 +183,12 @@ class Gen:
         if not fl:
             return None
         n = self.rng.choice(fl)
-        m = self.rng.choice(["H1", "H2"])
+        m = self.rng.choice(["H1", "H2", "L1"])
+        if m == "L1" and "A" in fl:
+            n = "A"                       # a hard link in the place of the symbolic link L1 -> A: same name, same target string
         p = self.a.path(d, m)
+        if os.path.isdir(p) and not os.path.islink(p):
+            return None
         if os.path.lexists(p):
             os.remove(p)
             if self.rng.random() < 0.4:
@@ -498,7 +502,8 @@ class Gen:
             # growth phase with deletions and partial syncs -> fragmented allocation
             for _ in range(rng.randint(2, 5)):
                 for _ in range(rng.randint(1, 3)):
-                    desc = rng.choice([self.op_add, self.op_add, self.op_delete, self.op_touch])()
+                    desc = rng.choice([self.op_add, self.op_add, self.op_add, self.op_delete, self.op_delete, self.op_touch, self.op_touch,
+                                       self.op_symlink, self.op_hardlink, self.op_dir])()
                     if desc:
                         self.rec.env(desc)
                         self.steps.append(desc)
